@@ -451,13 +451,14 @@ def main(tier, t0):
         'on the extracted constants: Z, A\', B\' are the RFC values in position; chains raise to (q-3)/4 and (q^2-9)/16; the candidate root is u^a v^b with '
         'cand^2 v/u a 2nd / 8th root of unity; the G2 multiplier tables are complete for the 4th roots / primitive 8th roots, so a trial always matches '
         '(terminal panic infeasible); each returned affine point is x0 or x1 = xi t^2 x0 under a path condition that says y^2 = g(x); x0 is tried first; '
-        'exceptional denominator gives A\'xi; y is negated iff sgn0(y_affine) != sgn0(t); the helper\'s rational functions x0 = B(1+s)/(-A s), '
-        'g(x0) = (N^3 + A N D^2 + B D^3)/D^3 are decided in the sum-of-monomials domain.',
+        'y is negated iff sgn0(y_affine) != sgn0(t) (decided in a GF(2) sign algebra, whatever the spelling); the helper\'s rational functions '
+        'x0 = B(1+s)/(-A s) with s = xi^2 t^4 + xi t^2 (path for s = 0: B/(A xi), modulo s), g(x0) = (N^3 + A N D^2 + B D^3)/D^3 and its branch (a zero test of s up to a unit) '
+        'are decided as polynomial identities in Z_q[t, xi, A, B].',
         ['rustc MIR + const evaluation', 'Fq/Fq2 operations meet their contracts; sgn0/negate_if contracts (C18)', 'Euler criterion / structure of roots of unity in Fq2'],
-        ['monomial (exponent-vector) reasoning only; sums are opaque'])
+        ['exponent-vector reasoning for the maps (sums opaque there); the helper in a bounded polynomial ring'])
 
 
-# ---------------------------------------------------------------- the helper's polynomials (sum-of-monomials domain)
+# ---------------------------------------------------------------- the helper's polynomials (polynomial-ring domain)
 def rule_helper_polys(fx, rep):
     """The shared helper, decided in the polynomial ring Z_q[t, xi, A, B] (bounded degree; assume-guarantee on the field
     operations): with s = xi^2 t^4 + xi t^2 it returns the monomials t^2, xi t^2, xi^2 t^4 and, on the path taken for
